@@ -198,7 +198,7 @@ def run(tier):
             e = cfg.expr_operand(rt, s["rv"]["ops"][idx])
             rep.check(e == ("param", 4), "suffix-unchanged", "resolve_tag#%d" % n_tag, "the tag suffix is not returned as given", site=site(rt, s["sp"]),
                       detail=cfg.expr_str(e))
-    rep.floor("Tag constructions in resolve_tag", n_tag, 5)
+    rep.floor("Tag constructions in resolve_tag", n_tag, 3)
 
     # (c) writers of Parser.tags
     writers = {}
@@ -213,18 +213,20 @@ def run(tier):
     de = F.fn(PARSER + "::document_end")
     ws = writers.get(de.key, [])
     ok = len(ws) == 1 and ws[0]["kind"] == "borrow_mut" and ws[0].get("use") and ws[0]["use"]["callee"].endswith("::clear")
+    det = None
     if ok:
         ok = False
+        cb = ws[0]["use"]["bb"]
         for bi, b in enumerate(de.blocks):
             if not b["cleanup"] and b["term"]["k"] == "switch" and cfg.self_field_of_switch(de, bi) == ["keep_tags"]:
                 m, other = cfg.switch_edge_blocks(de, bi)
-                if 0 in m and cfg.dominated_by_edge(de, ws[0]["use"]["bb"], bi, m[0]):
-                    # ... and every returning path from the !keep_tags edge passes the clear()
-                    cb = ws[0]["use"]["bb"]
-                    esc = None if m[0] == cb else cfg.flag_reach(de, m[0], cfg.return_blocks(de), avoid={cb} | cfg.err_sink_blocks(de))
-                    ok = esc is None and m[0] not in cfg.return_blocks(de)
-    rep.check(ok, "tags-reset-at-document-end", "document_end", "document_end no longer clears the tag handles exactly when keep_tags is off",
-              site=de.span)
+                if 0 in m and cfg.dominated_by_edge(de, cb, bi, m[0]):
+                    # every accepting path of document_end either clears the handles or took the keep_tags edge
+                    esc = cfg.escapes_without_edges(de, 0, {cb}, forbidden_edges={(bi, other)}, avoid=cfg.err_sink_blocks(de))
+                    ok = esc is None
+                    det = {"escaping_path": esc}
+    rep.check(ok, "tags-reset-at-document-end", "document_end", "some accepting path of document_end leaves the tag handles in place although keep_tags is off "
+              "(declarations must end with their document)", site=de.span, detail=det)
     return rep
 
 
